@@ -36,6 +36,9 @@ type SchedOpts struct {
 	FallbackBound int
 	// DataFreeLocks: see vsched.Options.
 	DataFreeLocks bool
+	// DevBound > 0 additionally bounds the number of points at which a schedule
+	// may deviate from the default schedule (preemptive or not).
+	DevBound int
 	// UseMark: the body runs a set-up phase under the default schedule and
 	// then calls vsched.Mark(); only later points are branched on.
 	UseMark bool
@@ -207,6 +210,9 @@ func schedOnce(o SchedOpts) SchedStats {
 						continue
 					}
 					lvl := it.level + 1
+					if o.DevBound > 0 && lvl > o.DevBound {
+						continue
+					}
 					if lvl == 1 && o.NShards > 1 {
 						// shard on the first deviation from the default schedule: the root
 						// execution is run by every worker, each level-1 subtree by one
